@@ -80,10 +80,10 @@ func (mi *MessageInfo) lazyUnmarshal(p pointer, num protoreflect.FieldNumber) {
 	fp := pointerOfValue(reflect.New(f.ft))
 	if multipleEntries != nil {
 		for _, entry := range multipleEntries {
-			mi.unmarshalField(lazy.Buffer()[entry.Start:entry.End], fp, f, lazy, lazy.UnmarshalFlags())
+			mi.unmarshalField(lazy.Buffer()[entry.Start:entry.End], fp, f, lazy, lazy.UnmarshalFlags(), -1)
 		}
 	} else {
-		mi.unmarshalField(lazy.Buffer()[start:end], fp, f, lazy, lazy.UnmarshalFlags())
+		mi.unmarshalField(lazy.Buffer()[start:end], fp, f, lazy, lazy.UnmarshalFlags(), -1)
 	}
 	if verifhook.Enabled {
 		verifhook.Ev(verifhook.LazyBeforeCAS, uintptr(num), 0, uintptr(fp.Elem().p))
@@ -103,9 +103,14 @@ func b2u(b bool) uintptr {
 	return 0
 }
 
-func (mi *MessageInfo) unmarshalField(b []byte, p pointer, f *coderFieldInfo, lazyInfo *protolazy.XXX_lazyUnmarshalInfo, flags piface.UnmarshalInputFlags) error {
+// unmarshalField unmarshals the occurrences of field f in b. The recursion
+// depth still available is depth, or that of lazyUnmarshalOptions if negative.
+func (mi *MessageInfo) unmarshalField(b []byte, p pointer, f *coderFieldInfo, lazyInfo *protolazy.XXX_lazyUnmarshalInfo, flags piface.UnmarshalInputFlags, depth int) error {
 	opts := lazyUnmarshalOptions
 	opts.flags |= flags
+	if depth >= 0 {
+		opts.depth = depth
+	}
 	for len(b) > 0 {
 		// Parse the tag (field number and wire type).
 		var tag uint64
@@ -362,8 +367,9 @@ func (mi *MessageInfo) unmarshalPointerLazy(b []byte, p pointer, groupTag protow
 					}
 				case lazyFields[f] == lazyUnmarshalLater:
 					// This field will be unmarshaled in a separate pass below.
-					// Skip over it here.
-					discardUnknown = true
+					// Skip over it here. (An occurrence with another wire
+					// type is an unknown field, and that pass ignores it.)
+					discardUnknown = wtyp == protowire.Type(f.wiretag&7)
 					break Field
 				default:
 					// Eagerly unmarshal the field.
@@ -458,7 +464,7 @@ func (mi *MessageInfo) unmarshalPointerLazy(b []byte, p pointer, groupTag protow
 			if *lazy == nil {
 				*lazy = &protolazy.XXX_lazyUnmarshalInfo{}
 			}
-			if err := mi.unmarshalField((*lazy).Buffer(), p.Apply(f.offset), f, *lazy, opts.flags); err != nil {
+			if err := mi.unmarshalField((*lazy).Buffer(), p.Apply(f.offset), f, *lazy, opts.flags, opts.depth); err != nil {
 				return out, err
 			}
 			presence.SetPresentUnatomic(f.presenceIndex, mi.presenceSize)
